@@ -71,6 +71,7 @@ type c03Case struct {
 	Skipped  string     `json:"skipped,omitempty"` // back-end not available in this environment
 	Oracle   []string   `json:"oracle"`
 	Degen    []string   `json:"degen"` // property-relevant misbehaviour outside the proved guards
+	Tie      []string   `json:"tie"`   // a modelling assumption that is not a generated constant does not hold
 	Feat     []string   `json:"feat"`
 }
 
@@ -566,6 +567,10 @@ func c03RunBM(c *c03Case, mem []byte, canary []byte) {
 	if len(mem) >= 8 {
 		c.ListNum = int64(*(*uint16)(unsafe.Pointer(&mem[0])))
 		c.UsedLen = int64(c03U32(mem, bmCapOffset))
+		fb := byte(c.Fill)
+		if fb != 0 && (mem[2] != fb || mem[3] != fb || int(c.ListNum) != n%65536) {
+			c.Tie = append(c.Tie, "the list count is not a 2-byte field at offset 0 of the manager header")
+		}
 	}
 	var orc []string
 	oadd := func(s string) { orc = append(orc, s) }
@@ -653,13 +658,18 @@ func c03RunQ(c *c03Case) {
 		c.QCreate = "Panic"
 		if c.Guard {
 			add("panic: createQueueFromBytes panicked")
-		} else if !full {
+		} else if !full && uint32(uint64(queueHeaderLength)+uint64(c.QCap)*queueElementLen) < queueHeaderLength {
+			// the wrapped end lies below the header length: data[24:end] panics whatever the memory length
+			// (a wrapped end beyond a SHORT test memory also panics, but would not on the 8 GiB the capacity asks for)
 			c.Degen = append(c.Degen, "createQueueFromBytes panics when 24+12*cap wraps in uint32")
 		}
 		return
 	}
 	c.QCreate = "Ok"
 	c.QA = []c03Queue{c03QueueOf(qa, base, 0)}
+	if c.QDataLen >= 4 && c03U32(d, 0) != uint32(c.QCap) {
+		c.Tie = append(c.Tie, "the queue capacity word is not the uint32 at data[0]")
+	}
 	if p, _ := c03Try(func() { qb = mappingQueueFromBytes(d) }); p {
 		c.QMap = "Panic"
 		add("peer: mappingQueueFromBytes panicked on a freshly created queue")
@@ -692,6 +702,10 @@ func c03RunQ(c *c03Case) {
 	} else if !full {
 		for _, s := range orc {
 			c.Degen = append(c.Degen, s+" when 24+12*cap wraps in uint32")
+		}
+		// what the first put does on such a queue (it believes it has room for cap elements)
+		if p, _ := c03Try(func() { _ = qa.put(queueElement{seqID: 1, offsetInShmBuf: 2, status: 3}) }); p {
+			c.Degen = append(c.Degen, "queue: put panics on a fresh queue when 24+12*cap wraps in uint32")
 		}
 	}
 	// round trip through the ring when it can hold something
@@ -963,6 +977,9 @@ func TestVerif_C03(t *testing.T) {
 		if c.Feat == nil {
 			c.Feat = []string{}
 		}
+		if c.Tie == nil {
+			c.Tie = []string{}
+		}
 		out.emit(c)
 		id++
 	}
@@ -1038,7 +1055,11 @@ func TestVerif_C03(t *testing.T) {
 		if memfd {
 			kind = "bmmemfd"
 		}
-		for k := 0; k < 8; k++ {
+		nb := 8
+		if n >= 5000 {
+			nb = 25 // thorough tier: 50 buffer regions on real back-ends
+		}
+		for k := 0; k < nb; k++ {
 			var pairs [][2]int64
 			var memLen int64
 			for {
